@@ -178,85 +178,101 @@ func ruleCrc16(w *core.World, r *core.Report) {
 	if f == nil {
 		return
 	}
-	// update step: find the BinOp XOR whose operands are (crc << 8) and tab[((crc >> 8) ^ b) & 0xff]
+	// the register: a loop-carried value that starts at 0 and is what the function returns
 	okStep, okLoop, okRet := false, false, false
+	why := ""
 	var crcPhi *ssa.Phi
-	for _, in := range core.Instrs(f) {
-		x, ok := in.(*ssa.BinOp)
-		if !ok || x.Op != token.XOR {
+	for _, in := range core.OwnInstrs(f) {
+		ret, ok := in.(*ssa.Return)
+		if !ok || len(ret.Results) != 1 {
 			continue
 		}
-		for _, pair := range [][2]ssa.Value{{x.X, x.Y}, {x.Y, x.X}} {
-			shl, ok := pair[0].(*ssa.BinOp)
-			if !ok || shl.Op != token.SHL || !isConstInt(8)(shl.Y) {
-				continue
-			}
-			ph, ok := shl.X.(*ssa.Phi)
-			if !ok {
-				continue
-			}
-			ld, ok := pair[1].(*ssa.UnOp)
-			if !ok || ld.Op != token.MUL {
-				continue
-			}
-			ia, ok := ld.X.(*ssa.IndexAddr)
-			if !ok {
-				continue
-			}
-			g, ok := ia.X.(*ssa.Global)
-			if !ok || g.Name() != "crc16tab" {
-				continue
-			}
-			and, ok := core.Unwrap(ia.Index).(*ssa.BinOp)
-			if !ok || and.Op != token.AND || !isConstInt(255)(and.Y) {
-				continue
-			}
-			xr, ok := and.X.(*ssa.BinOp)
-			if !ok || xr.Op != token.XOR {
-				continue
-			}
-			for _, p2 := range [][2]ssa.Value{{xr.X, xr.Y}, {xr.Y, xr.X}} {
-				shr, ok := p2[0].(*ssa.BinOp)
-				if !ok || shr.Op != token.SHR || !isConstInt(8)(shr.Y) || shr.X != ssa.Value(ph) {
-					continue
-				}
-				// the byte: uint16(buf[i])
-				if lk, ok := core.Unwrap(p2[1]).(*ssa.Index); ok && len(f.Params) == 1 && lk.X == ssa.Value(f.Params[0]) {
-					// phi: init 0, back edge = this xor
-					init, back := false, false
-					for _, e := range ph.Edges {
-						if k, isC := core.ConstInt(e); isC && k == 0 {
-							init = true
-						} else if e == ssa.Value(x) {
-							back = true
-						}
-					}
-					if init && back && len(ph.Edges) == 2 {
-						okStep = true
-						crcPhi = ph
-					}
-					// index: phi [0, i+1], bounded by len(buf)
-					if ip, ok := lk.Index.(*ssa.Phi); ok && len(ip.Edges) == 2 {
-						z, inc := false, false
-						for _, e := range ip.Edges {
-							if k, isC := core.ConstInt(e); isC && k == 0 {
-								z = true
-							} else if b, ok := e.(*ssa.BinOp); ok && b.Op == token.ADD && b.X == ssa.Value(ip) && isConstInt(1)(b.Y) {
-								inc = true
-							}
-						}
-						okLoop = z && inc
-					}
-				}
-			}
-		}
-	}
-	for _, in := range core.Instrs(f) {
-		if ret, ok := in.(*ssa.Return); ok && len(ret.Results) == 1 && crcPhi != nil && core.RetVal(ret, 0) == ssa.Value(crcPhi) {
+		if ph, isPh := core.RetVal(ret, 0).(*ssa.Phi); isPh && len(ph.Edges) == 2 {
+			crcPhi = ph
 			okRet = true
 		}
 	}
-	r.Check(okStep && okLoop && okRet, "digest.Crc16/step", f.Pos(), "expected crc=0; for every byte b from index 0: crc = (crc<<8) ^ tab[((crc>>8)^b)&0xff]; return crc (step=%v loop=%v ret=%v)", okStep, okLoop, okRet)
+	if crcPhi != nil && len(f.Params) == 1 {
+		var next ssa.Value
+		init := false
+		head := crcPhi.Block()
+		for i, e := range crcPhi.Edges {
+			if head.Dominates(head.Preds[i]) {
+				next = e
+			} else if k, isC := core.ConstInt(e); isC && k == 0 {
+				init = true
+			}
+		}
+		// the update, in bit-level normal form over (register bits 0..15, input byte bits 16..23)
+		var idxVals []ssa.Value
+		env := &bvEnv{sub: map[ssa.Value]ssa.Value{}, leaf: func(v ssa.Value) (int, int, bool) {
+			if v == ssa.Value(crcPhi) {
+				return 0, 16, true
+			}
+			switch x := v.(type) {
+			case *ssa.Index:
+				if x.X == ssa.Value(f.Params[0]) {
+					idxVals = append(idxVals, x.Index)
+					return 16, 8, true
+				}
+			case *ssa.Lookup:
+				if x.X == ssa.Value(f.Params[0]) && !x.CommaOk {
+					idxVals = append(idxVals, x.Index)
+					return 16, 8, true
+				}
+			}
+			return 0, 0, false
+		}}
+		if next != nil && init {
+			got, ok := env.norm(next)
+			switch {
+			case !ok:
+				why = "the update expression is not a shift/xor/mask/table expression of the register and the current byte"
+			case got.w != 16 || got.tab == nil || got.tab.Name() != "crc16tab" || got.tabW != 16:
+				why = "the update does not xor a full entry of crc16tab into the register"
+			default:
+				good := true
+				for j := 0; j < 16; j++ {
+					want := uint64(0)
+					if j >= 8 {
+						want = 1 << uint(j-8)
+					}
+					if got.lin[j] != want {
+						good = false
+					}
+				}
+				for j := 0; j < 64; j++ {
+					want := uint64(0)
+					if j < 8 {
+						want = 1<<uint(8+j) | 1<<uint(16+j)
+					}
+					if got.tabIdx.lin[j] != want {
+						good = false
+					}
+				}
+				if !good {
+					why = "the update is not (crc<<8) ^ tab[((crc>>8) ^ b) & 0xff] bit for bit"
+				}
+				okStep = good
+			}
+		} else {
+			why = "the register does not start at 0"
+		}
+		// every byte from index 0: the byte read is buf[i] with i = 0,1,…,len(buf)-1
+		okLoop = len(idxVals) > 0
+		for _, iv := range idxVals {
+			from, bound, ok := indexRange(iv)
+			if !ok || from != 0 {
+				okLoop = false
+				continue
+			}
+			c, isC := core.Unwrap(bound).(*ssa.Call)
+			if !isC || !isBuiltin(c, "len") || c.Call.Args[0] != ssa.Value(f.Params[0]) {
+				okLoop = false
+			}
+		}
+	}
+	r.Check(okStep && okLoop && okRet, "digest.Crc16/step", f.Pos(), "expected crc=0; for every byte b from index 0: crc = (crc<<8) ^ tab[((crc>>8)^b)&0xff]; return crc (step=%v loop=%v ret=%v %s)", okStep, okLoop, okRet, why)
 }
 
 // firstMatchScan recognises `for idx = start; idx < len(key); idx++ { if key[idx] == ch { break } }`
@@ -519,7 +535,7 @@ func isIndexOf(v ssa.Value, ch int64) (ssa.Value, bool) {
 func rangeOn(p *core.Path, v ssa.Value) (lo, hi int64) {
 	lo, hi = -1, 1<<62
 	for _, fct := range p.Conds {
-		c, ok := core.AsCmp(fct.Cond, fct.Val)
+		c, ok := core.FactCmp(fct)
 		if !ok {
 			continue
 		}
